@@ -17,8 +17,9 @@ CHECKS = {
         "completely full table. Every transition TLC generates is then executed against the real QuotientFilter and membership of every universe hash, "
         "get_hashes(), elements_added and termination are compared with the model after each call; the four internal arrays are compared with the "
         "model's table for drift.",
-        note="Exhaustive only within the stated universes (12-16 hashes, quotient sizes 3..6); hashes enter through add_alt/remove_alt/check_alt; "
-        "quotient sizes above 6 (other remainder array typecodes) are not enumerated. Trusted: TLC, the Python harness.",
+        note="Exhaustive within the stated universes (12-16 hashes, quotient sizes 3..6, and small universes at quotient sizes 16 and 24 for the other "
+        "remainder typecodes); spec/TraceScale.tla adds long histories through the string API (default 32-bit FNV-1a) with automatic and manual resizes. "
+        "Trusted: TLC, the Python harness.",
         design="6 (C04)",
         technique=TECH,
     ),
@@ -28,15 +29,17 @@ CHECKS = {
         "shapes and seeded tables; exhaustive for the smallest geometry in the thorough tier); invariant NoFalseNegative and action property Monotone checked "
         "by TLC; every generated transition is executed on BloomFilter / BloomFilterOnDisk and every key added since the last clear must be reported present "
         "after every step, after union, and after every export/load channel and on-disk reopen.",
-        note="Geometries up to 17 bits / 5 hashes, 3 keys, histories up to depth 5; expanding filters are covered by the ExpandingBloom engine; the default "
-        "hash strategies by the trace checks. Trusted: TLC, the harness.",
+        note="Exhaustive part: geometries up to 17 bits / 5 hashes, 3 keys, depth 4-5 plus TLC simulation schedules to depth 14; the five hashing strategies "
+        "(default FNV-1a, md5, sha256, decorator-built, hand-written) run on real text/bytes keys with the table TLC gets obtained by calling the strategy once "
+        "per key; spec/TraceScale.tla validates long histories on 100-5000 bit filters (in-memory, on-disk with reopen, expanding) with reloads. Trusted: TLC, the harness.",
         design="6 (C01)", technique=TECH),
     "C02": dict(
         category="model_checking",
         text="spec/CountMin.tla: cells, total, and the history oracle tru[k]; invariants Bounds (tru <= est <= total, exact when isolated), TotalMeaning and "
         "action property RetIsCheck checked by TLC for widths/depths up to 3x3 and every generated transition executed on CountMinSketch (also HeavyHitters and "
         "StreamThreshold in min mode), all keys queried after every step.",
-        note="Unsaturated, legitimate histories only (as the property states); table-driven hash functions; small widths so that collisions are the norm.",
+        note="Unsaturated, legitimate histories only (as the property states); table-driven hash functions and the real strategies on small widths so that "
+        "collisions are the norm, plus TraceScale.tla traces on widths 50..1000 with the default hash.",
         design="6 (C02)", technique=TECH),
     "C03": dict(
         category="model_checking",
@@ -138,8 +141,9 @@ CHECKS = {
         text="BloomFamily.tla / CountMin.tla with tiny limits (cells +-3, totals +-5) so that TLC walks across the limits exhaustively (TypeOK, "
         "SaturatedStays); the same tiny limits are patched into the limit constants the counting modules read, and every transition is executed on the "
         "real classes: no exception, returned value, every cell and total equal to the model, export/load, union/intersection/join.",
-        note="The limits are patched module attributes (UINT32_T_MAX, INT32_T_MAX, ...); the real 2^31/2^32/2^63/2^64 limits are exercised by the "
-        "limb-arithmetic trace check.", design="6 (C16)", technique=TECH),
+        note="Two complementary parts: (1) the exhaustive tiny-limit graph needs the limits patched into the module attributes (UINT32_T_MAX, INT32_T_MAX, ...) "
+        "and is blind to a wrong constant; (2) spec/TraceSat.tla validates histories with amounts around 2^31, 2^32, 2^63, 2^64 recorded with the real limits in "
+        "arbitrary-precision limb arithmetic. Counting-Bloom removals are legitimate ones (as in C08).", design="6 (C16), 0.2", technique=TECH),
     "C17": dict(
         category="model_checking",
         text="CountMin.tla models the tracked tables as insertion-ordered dictionaries incl. the cached (stale) smallest value of HeavyHitters; invariants "
